@@ -112,6 +112,8 @@ def gen_edges(rng, n, weighted, neg):
 def generate(rng, tier):
     fn = rng.choice(FUNCS)
     n = rng.randrange(1, 8 if tier == "quick" else 10)
+    if rng.random() < 0.03:
+        n = rng.randrange(12, 33)  # a few dozen nodes: longer paths, deeper union-find trees, more PageRank sweeps
     case = {"fn": fn, "n": n, "world": os.environ.get("VERIF_WORLD", "rust")}
     if fn == "floyd_warshall":
         case["edges"] = gen_edges(rng, n, True, rng.random() < 0.4)
